@@ -34,6 +34,12 @@ def build(variant: Dict[str, Any]):
         sim=cfg.sim._replace(start_time=SimTime.build(variant["start"]), end_time=SimTime.build(variant["end"]),
                              timestep_duration_seconds=variant["dt"], request_cancel_time_seconds=variant["timeout"]),
     )
+    if variant.get("out"):
+        # summary statistics wanted: the StatsHandler needs an output directory
+        from pathlib import Path
+
+        cfg = cfg._replace(global_config=cfg.global_config._replace(log_stats=True, output_base_directory=variant["out"]),
+                           scenario_output_directory=Path(variant["out"]) / "run")
     rp = load_simulation(cfg)
     cap = Capture()
     rp.e.reporter.add_handler(cap)
